@@ -323,6 +323,30 @@ class MiniEval:
             op = BIN.get(type(stmt.op))
             if op is None:
                 raise Unevaluable("augmented operator")
+            # in-place operators of the mutable builtins change the object itself (every alias sees it)
+            if isinstance(cur, list) and isinstance(stmt.op, ast.Add) and isinstance(val, (list, tuple)):
+                cur.extend(val)
+                self.assign(fn, stmt.target, cur, env, depth)
+                return
+            if isinstance(cur, list) and isinstance(stmt.op, ast.Mult) and isinstance(val, int) and not isinstance(val, bool):
+                cur *= val
+                self.assign(fn, stmt.target, cur, env, depth)
+                return
+            if isinstance(cur, set) and isinstance(val, (set, frozenset)) and isinstance(stmt.op, (ast.BitOr, ast.BitAnd, ast.Sub, ast.BitXor)):
+                if isinstance(stmt.op, ast.BitOr):
+                    cur |= val
+                elif isinstance(stmt.op, ast.BitAnd):
+                    cur &= val
+                elif isinstance(stmt.op, ast.Sub):
+                    cur -= val
+                else:
+                    cur ^= val
+                self.assign(fn, stmt.target, cur, env, depth)
+                return
+            if isinstance(cur, dict) and isinstance(val, dict) and isinstance(stmt.op, ast.BitOr):
+                cur.update(val)
+                self.assign(fn, stmt.target, cur, env, depth)
+                return
             self.assign(fn, stmt.target, self.apply_bin(op, cur, val), env, depth)
             return
         if isinstance(stmt, ast.If):
